@@ -334,10 +334,10 @@ Proof.
 Qed.
 
 (** spfip4() / spfip6() on a strict argument *)
-Lemma spfip4_plain arg rest net len : parse_ip4 true arg = Some (MIp4 net len) -> sp_tail rest = true ->
+Lemma spfip4_plain arg rest net len : parse_ip4 arg = Some (MIp4 net len) -> 8 <= len -> sp_tail rest = true ->
   spfip4 X (arg ++ rest) = if client_v4 X && ip4_matchnet (s_client X) net len then SPF_PASS else SPF_NONE.
 Proof.
-  intros H Hr. unfold parse_ip4 in H.
+  intros H H8 Hr. unfold parse_ip4 in H.
   set (a := take_while not_slash arg) in *. set (r := drop_while not_slash arg) in *.
   assert (Ea : arg = a ++ r) by (symmetry; apply take_drop).
   assert (Hsr : stops not_slash r = true) by apply drop_while_stops.
@@ -349,9 +349,8 @@ Proof.
   assert (R : (r = [] /\ len = 32 \/ exists n, r = 47 :: n /\ cidr_num n 32 = Some len /\ 8 <= len) /\ net = octets_to_N o).
   { destruct r as [|c n]; [injection H as <- <-; split; [left; split; reflexivity|reflexivity]|].
     assert (c = 47) by (cbn in Hsr; unfold not_slash in Hsr; lia). subst c.
-    destruct (cidr_num n 32) as [v|] eqn:Q; [|discriminate].
-    destruct (v <? 8) eqn:Q8; cbn [andb] in H; [discriminate|]. injection H as <- <-.
-    split; [right; exists n; split; [reflexivity|split; [exact Q|lia]]|reflexivity]. }
+    destruct (cidr_num n 32) as [v|] eqn:Q; [|discriminate]. injection H as <- <-.
+    split; [right; exists n; split; [reflexivity|split; [exact Q|exact H8]]|reflexivity]. }
   destruct R as [R ->].
   unfold spfip4. destruct (client_v4 X); [|reflexivity]. cbn [negb andb].
   assert (T : r = [] \/ exists n, r = 47 :: n) by (destruct R as [[-> _]|(n & -> & _)]; eauto).
@@ -364,24 +363,24 @@ Proof.
   rewrite (ip_prefix_plain r rest len 8 32 R ltac:(lia) Hr), P. reflexivity.
 Qed.
 
-Lemma spfip6_plain arg rest net len : parse_ip6 true arg = Some (MIp6 net len) -> sp_tail rest = true ->
+Lemma spfip6_plain arg rest net len : parse_ip6 arg = Some (MIp6 net len false) -> 8 <= len -> sp_tail rest = true ->
   spfip6 X (arg ++ rest) = if negb (client_v4 X) && ip6_matchnet (s_client X) net len then SPF_PASS else SPF_NONE.
 Proof.
-  intros H Hr. unfold parse_ip6 in H.
+  intros H H8 Hr. unfold parse_ip6 in H.
   set (a := take_while not_slash arg) in *. set (r := drop_while not_slash arg) in *.
   assert (Ea : arg = a ++ r) by (symmetry; apply take_drop).
   assert (Hsr : stops not_slash r = true) by apply drop_while_stops.
   clearbody a r. subst arg.
   destruct (forallb ip6_char a && Nat.leb (length a) 45) eqn:C; cbn [negb] in H; [|discriminate].
   apply andb_true_iff in C as [C1 C2]. apply Nat.leb_le in C2.
-  destruct (Nat.ltb (length a) 3) eqn:C3; cbn [andb] in H; [discriminate|]. apply Nat.ltb_ge in C3.
   destruct (inet_pton6 a) as [o|] eqn:P; [|discriminate].
-  assert (R : (r = [] /\ len = 128 \/ exists n, r = 47 :: n /\ cidr_num n 128 = Some len /\ 8 <= len) /\ net = octets_to_N o).
-  { destruct r as [|c n]; [injection H as <- <-; split; [left; split; reflexivity|reflexivity]|].
+  assert (R : ((r = [] /\ len = 128 \/ exists n, r = 47 :: n /\ cidr_num n 128 = Some len /\ 8 <= len) /\ net = octets_to_N o)
+              /\ Nat.ltb (length a) 3 = false).
+  { destruct r as [|c n]; [injection H as <- <- C3; split; [split; [left; split; reflexivity|reflexivity]|exact C3]|].
     assert (c = 47) by (cbn in Hsr; unfold not_slash in Hsr; lia). subst c.
-    destruct (cidr_num n 128) as [v|] eqn:Q; [|discriminate].
-    destruct (v <? 8) eqn:Q8; cbn [andb] in H; [discriminate|]. injection H as <- <-.
-    split; [right; exists n; split; [reflexivity|split; [exact Q|lia]]|reflexivity]. }
+    destruct (cidr_num n 128) as [v|] eqn:Q; [|discriminate]. injection H as <- <- C3.
+    split; [split; [right; exists n; split; [reflexivity|split; [exact Q|exact H8]]|reflexivity]|exact C3]. }
+  destruct R as [R C3]. apply Nat.ltb_ge in C3.
   destruct R as [R ->].
   unfold spfip6. destruct (client_v4 X); [reflexivity|]. cbn [negb andb].
   assert (T : r = [] \/ exists n, r = 47 :: n) by (destruct R as [[-> _]|(n & -> & _)]; eauto).
@@ -473,7 +472,7 @@ Proof. intros L. unfold res_match. destruct (addr_match X l a b); cbn; auto. Qed
 
 (** a term that is a mechanism; [tk]: the whole term as the model sees it *)
 Lemma mech_sim domain tk tok rest m mechl g :
-  parse_mech true tok = Some m -> sp_tail rest = true -> (g_q g <= 10)%nat ->
+  parse_mech tok = Some m -> sp_tail rest = true -> (g_q g <= 10)%nat ->
   forall tr, mech_eval D X mk recM domain tk (tok ++ rest) mechl g = Ok tr ->
   is_alpha (hd0 tok) = true /\
   exists res ml g', tr = TRes res ml g' /\ mrel (eval_mech D X true recS domain m (g_q g)) res (g_q g').
@@ -554,10 +553,12 @@ Proof.
     assert (Hm : exists net len, m = MIp4 net len).
     { unfold parse_ip4 in H. destruct (negb _); [discriminate|]. destruct (inet_pton4 _); [|discriminate].
       destruct (drop_while not_slash arg); [injection H as <-; eauto|].
-      destruct (cidr_num _ 32); [|discriminate]. destruct (true && _); [discriminate|]. injection H as <-; eauto. }
+      destruct (cidr_num _ 32); [|discriminate]. injection H as <-; eauto. }
     destruct Hm as (net & len & ->).
-    eexists _, _, _. split; [reflexivity|]. rewrite (spfip4_plain arg rest net len H Hr).
-    cbn [eval_mech]. destruct (client_v4 X && ip4_matchnet (s_client X) net len); cbn; auto. }
+    eexists _, _, _. split; [reflexivity|]. cbn [eval_mech andb].
+    destruct (len <? 8) eqn:L8; [exact I|].
+    rewrite (spfip4_plain arg rest net len H ltac:(lia) Hr).
+    destruct (client_v4 X && ip4_matchnet (s_client X) net len); cbn; auto. }
   (* ip6 *)
   destruct (is_prefix KW_IP6 (lowerb tok)) eqn:Eip6.
   { destruct (lower_kw_split _ _ Eip6) as (Ek & Et & _). set (k := firstn (length KW_IP6) tok) in *.
@@ -570,14 +571,16 @@ Proof.
     rewrite (mm_kw [105; 112; 54] [58; 47] k' _ eq_refl Ek'). cbn [at_end hd0 mem existsb wspace N.eqb Pos.eqb orb tl].
     intros Htr. split; [destruct k' as [|c t]; [discriminate|]; injection Ek' as E1 _; eapply to_lower_alpha; [exact E1|reflexivity]|].
     injection Htr as <-.
-    assert (Hm : exists net len, m = MIp6 net len).
-    { unfold parse_ip6 in H. destruct (negb _); [discriminate|]. destruct (true && _); [discriminate|].
+    assert (Hm : exists net len short, m = MIp6 net len short).
+    { unfold parse_ip6 in H. destruct (negb _); [discriminate|].
       destruct (inet_pton6 _); [|discriminate].
       destruct (drop_while not_slash arg); [injection H as <-; eauto|].
-      destruct (cidr_num _ 128); [|discriminate]. destruct (true && _); [discriminate|]. injection H as <-; eauto. }
-    destruct Hm as (net & len & ->).
-    eexists _, _, _. split; [reflexivity|]. rewrite (spfip6_plain arg rest net len H Hr).
-    cbn [eval_mech]. destruct (negb (client_v4 X) && ip6_matchnet (s_client X) net len); cbn; auto. }
+      destruct (cidr_num _ 128); [|discriminate]. injection H as <-; eauto. }
+    destruct Hm as (net & len & short & ->).
+    eexists _, _, _. split; [reflexivity|]. cbn [eval_mech andb].
+    destruct (len <? 8) eqn:L8; [exact I|]. destruct short; [exact I|]. cbn [orb].
+    rewrite (spfip6_plain arg rest net len H ltac:(lia) Hr).
+    destruct (negb (client_v4 X) && ip6_matchnet (s_client X) net len); cbn; auto. }
   (* ptr *)
   destruct (is_prefix KW_PTR (lowerb tok)) eqn:Eptr.
   { destruct (lower_kw_split _ _ Eptr) as (Ek & Et & _). set (k := firstn (length KW_PTR) tok) in *.
